@@ -620,6 +620,79 @@ def check_pyramid_options(c):
     return None
 
 
+# ---------------------------------------------------------------- oracle: single-item classes delegate to the batch classes
+SINGLE_OPS = ["resize", "resample", "avg_pool", "downsample", "upsample", "pyramid", "crop", "pad", "center_crop", "center_pad",
+              "region_of_interest", "narrow", "conv", "sample", "normalize", "rescale",
+              "flow.axes", "flow.exp", "flow.curl", "flow.warp_image", "flow.sample"]
+
+
+def gen_single(rng: random.Random, tier: str):
+    for op in SINGLE_OPS:
+        for _ in range(_n(tier, 1, 10, 2)):
+            d = rng.choice([2, 3])
+            spec = gen.grid_spec(rng, d, min_size=6, max_size=8)
+            yield {"op": op, "grid": spec, "seed": rng.randrange(1 << 30), "channels": rng.choice([1, 2]),
+                   "axes": rng.choice(["world", "grid", "cube", "cube_corners"])}
+
+
+def check_single(c):
+    """Image.<op> / FlowField.<op> return what ImageBatch.<op> / FlowFields.<op> return for a batch of that one item: same
+    type, values, grid (incl. the align_corners flag) and vector representation"""
+    from deepali.data.flow import FlowField
+
+    g = gen.make_grid(c["grid"])
+    d = g.ndim
+    rng = random.Random(c["seed"])
+    gen_t = torch.Generator().manual_seed(c["seed"])
+    op = c["op"]
+    n = [int(v) for v in g.size()]
+    if op.startswith("flow."):
+        data = 0.05 * torch.randn((d,) + tuple(g.shape), generator=gen_t)
+        one = FlowField(data, g, Axes(c["axes"]))
+        many = FlowFields(data.unsqueeze(0), g, Axes(c["axes"]))
+        img = Image(torch.rand((1,) + tuple(g.shape), generator=gen_t), g)
+        tgt = Grid(size=[v - 1 for v in n], center=g.center(), spacing=g.spacing() * 1.1, direction=g.direction(),
+                   align_corners=not g.align_corners())
+        other = [a for a in ("world", "grid", "cube", "cube_corners") if a != c["axes"]][c["seed"] % 3]
+        call = {"flow.axes": lambda f: f.axes(Axes(other)), "flow.exp": lambda f: f.exp(steps=3),
+                "flow.curl": lambda f: f.curl(), "flow.sample": lambda f: f.sample(tgt),
+                "flow.warp_image": lambda f: f.warp_image(img if isinstance(f, FlowField) else img.batch())}[op]
+    else:
+        data = torch.rand((c["channels"],) + tuple(g.shape), generator=gen_t)
+        one, many = Image(data, g), ImageBatch(data.unsqueeze(0), g)
+        tgt = Grid(size=[v - 1 for v in n], center=g.center(), spacing=g.spacing() * 1.1, direction=g.direction(),
+                   align_corners=not g.align_corners())
+        num = [rng.randint(0, 1) for _ in range(2 * d)]
+        call = {"resize": lambda x: x.resize([v + 2 for v in n]), "resample": lambda x: x.resample(g.spacing() * 1.5),
+                "avg_pool": lambda x: x.avg_pool(2), "downsample": lambda x: x.downsample(1), "upsample": lambda x: x.upsample(1),
+                "pyramid": lambda x: x.pyramid(2), "crop": lambda x: x.crop(num=num), "pad": lambda x: x.pad(margin=1),
+                "center_crop": lambda x: x.center_crop([v - 2 for v in n]), "center_pad": lambda x: x.center_pad([v + 3 for v in n]),
+                "region_of_interest": lambda x: x.region_of_interest([1] * d, [3] * d),
+                "narrow": lambda x: x.narrow((1 if isinstance(x, Image) else 2) + c["seed"] % d, 1, 3),
+                "conv": lambda x: x.conv(torch.tensor([0.25, 0.5, 0.25])), "sample": lambda x: x.sample(tgt),
+                "normalize": lambda x: x.normalize(), "rescale": lambda x: x.rescale(-1, 3)}[op]
+    try:
+        a, b = call(one), call(many)
+    except Exception as e:
+        return (f"C04:single-vs-batch:{op}:raises", f"{type(e).__name__}: {str(e)[:120]}")
+    pairs = [(a[k], b[k]) for k in sorted(a)] if isinstance(a, dict) else [(a, b)]
+    for x, y in pairs:
+        if not isinstance(y, ImageBatch):
+            return (f"C04:single-vs-batch:{op}:batch-type", f"batch result is a {type(y).__name__}")
+        want_t = {"ImageBatch": "Image", "FlowFields": "FlowField"}[type(y).__name__]
+        if type(x).__name__ != want_t:
+            return (f"C04:single-vs-batch:{op}:type", f"{type(one).__name__}.{op} returns {type(x).__name__}, the batch form {type(y).__name__}")
+        if list(x.shape) != list(y.shape[1:]) or not torch.allclose(x.tensor(), y.tensor()[0], rtol=1e-5, atol=1e-6, equal_nan=True):
+            return (f"C04:single-vs-batch:{op}:values", f"{op}: values / shape of the single-item form differ from the batch form "
+                    f"({list(x.shape)} vs {list(y.shape)})")
+        gx, gy = x.grid(), y.grid(0)
+        if not (gx == gy) or gx.align_corners() != gy.align_corners() or list(gx.shape) != list(x.shape[1:]):
+            return (f"C04:single-vs-batch:{op}:grid", f"{op}: {gx!r} vs {gy!r}")
+        if want_t == "FlowField" and x.axes() != y.axes():
+            return (f"C04:single-vs-batch:{op}:axes", f"{op}: axes {x.axes()} vs {y.axes()}")
+    return None
+
+
 # ---------------------------------------------------------------- oracle: flow fields move in lock-step too
 def gen_flow(rng: random.Random, tier: str):
     for _ in range(_n(tier, 20, 400, 60)):
@@ -671,6 +744,9 @@ ORACLES = [
            doc="world-linear ramps through every spatial operation and compositions of up to 3, batches with per-image grids"),
     Oracle("forms", gen_forms, check_forms, doc="documented argument forms / batch forms keep one correct grid per image"),
     Oracle("flow", gen_flow, check_flow, doc="world-affine flow fields through crop/pad/center_crop/resize"),
+    Oracle("single_vs_batch", gen_single, check_single,
+           doc="every spatial / intensity method of Image and FlowField returns what the batch class returns for a batch of that one "
+               "item (type, values, grid incl. flag, axes): 21 methods"),
     Oracle("pyramid_options", gen_pyramid_options, check_pyramid_options,
            doc="Image / ImageBatch.pyramid with finest-level spacing (incl. exactly dividing spacings with sizes 2^L·k+1), explicit "
                "align_corners different from the grid's flag, per-image grids: every level sits on the Grid.pyramid level of the "
@@ -679,7 +755,7 @@ ORACLES = [
 
 
 def search_cases(disagreements: List[dict]):
-    extra = {"ramp": [], "pyramid_options": []}
+    extra = {"ramp": [], "pyramid_options": [], "single_vs_batch": []}
     for dsg in disagreements[:40]:
         c = dsg["case"]
         if "grid" in c and "op" in c:
